@@ -103,6 +103,46 @@ N = {
 "C18-5": ("C18", "IntMin/IntMax on a NON-EMPTY list without ints: 'list is empty' used as stand-in for 'no int present', the fold's initial value leaks out"),
 "C19-5": ("C19", "two embedding levels where the inner constructor registers first: Init keeps the first derived registration, Ego/fluent methods return the intermediate value"),
 "C20-5": ("C20", "an EMPTY (or trailing-comma) multi-line nested object followed by a later error: one return path does not write the local line counter back"),
+"C01-6a": ("C01", "a string value or key containing the character U+FFFD itself: validity test reduced to char == RuneError (the parser rejects the serialiser's own output)"),
+"C01-6b": ("C01", 'strings/keys whose bracket characters do not pair up across the document (value "a["): a textual \'balanced brackets\' pre-check rejects the serialised text'),
+"C02-6a": ("C02", "a float whose shortest form has ONE significant digit and prints in exponent form (1e6, 5e-7, 5e-324): '.0' appended after the exponent (1e+06.0)"),
+"C02-6b": ("C02", 'a string or key containing a correctly encoded U+FFFD: taken for an invalid byte and left out (data changed, keys may collapse)'),
+"C03-6a": ("C03", 'a valid document with white space BEFORE the root bracket: trailing-data check slices the whole text with an offset relative to the root'),
+"C03-6b": ("C03", "a number whose integer part is 0 followed directly by an exponent (0e0, -0E+5): leading-zero guard only allows '0.'"),
+"C04-6a": ("C04", 'ParseFile on a readable file with invalid content, or on a directory: deferred Close overwrites the error, result (nil, nil)'),
+"C04-6b": ("C04", 'an overlong two-byte UTF-8 form (lead byte C0/C1 + continuation) anywhere: hand-written two-byte decoder accepts it, can even act as a bracket'),
+"C05-6a": ("C05", 'IndexOf of a string/int in a heterogeneous list where an element of another kind precedes the match: index taken from the typed slice'),
+"C05-6b": ("C05", 'SubList whose resolved end is exactly 0 (end == -Count(), or any call on an empty list): range test <= 0 panics inside the documented domain'),
+"C06-6a": ("C06", 'Pluck naming a PRESENT key twice: validation by comparing counts panics although nothing is missing'),
+"C06-6b": ("C06", 'Set/NewObject with a non-string key that has a String() method (a List, an Object, time.Duration): accepted under its textual form instead of panicking'),
+"C07-6a": ("C07", 'nested objects (depth >= 1) whose key counts differ, receiver side smaller: size check hoisted into the public Equals only (asymmetric)'),
+"C07-6b": ("C07", 'receiver tree has a nested list where the other has a non-list or nothing: unchecked type assertion panics instead of returning false'),
+"C08-6a": ("C08", "Clone of a heterogeneous list (container next to a plain value, or object next to list): 'plain list' fast path guarded by !AllObjects && !AllLists shares the containers"),
+"C08-6b": ("C08", 'Clone of an object with >= 2 fields of which one is a container not visited last: deferred closures capture the loop variables (go 1.18 semantics), other containers stay shared (map-order dependent)'),
+"C09-6a": ("C09", "o.Merge(o): identity shortcut returns the receiver itself as the 'new' object"),
+"C09-6b": ("C09", "SubList of a proper tail of a list that is exactly full (len == cap): the result is a view into the receiver's array; Replace/Reverse/Delete on either side show in the other"),
+"C10-6a": ("C10", "a doubled '.' sigil (..n, .a..b): TrimLeft strips every leading dot, a path with an empty segment resolves"),
+"C10-6b": ("C10", "a FAILING GetTF through '.key#i' where key is missing or not a list: the shared helper is called with create=true and stores an empty list (the read modifies the tree)"),
+"C11-6a": ("C11", "object UnsetTF with a remaining path that mixes '.' and '#' (.a.b#1, .l#0.k): branch test turned round, removes nothing or panics"),
+"C11-6b": ("C11", "list SetTF '#i.key' with i > Count() on a NON-empty list: padding loop starts at count, too few nils, the new object lands too early"),
+"C12-6a": ("C12", "List.GetFloat on an element of kind int: shared 'numeric' helper widens instead of panicking"),
+"C12-6b": ("C12", 'a typed nil (nil *int / func / chan of unsupported type: accepted as nil; nil []string / map[string]any: stored as nil instead of an empty container)'),
+"C13-6a": ("C13", 'an empty list anywhere in the exported tree: nil slice instead of an empty non-nil slice (not deep-equal; marshals as null)'),
+"C13-6b": ("C13", "Slice() of a list holding nil elements: generic helper's x.(any) assertion drops them, the snapshot is shorter"),
+"C14-6a": ("C14", 'ReduceInts/ReduceFloats with a callback that treats accumulator and element differently: arguments swapped'),
+"C14-6b": ("C14", 'FilterStrings/Ints/Floats on a mixed list with a predicate whose calls are observed: predicate invoked for every element (zero value for other kinds)'),
+"C15-6a": ("C15", "Concat on a shared receiver with spare capacity: single append writes the argument into the receiver's backing array (concurrent Concat calls race and see each other's tails)"),
+"C15-6b": ("C15", 'two overlapping ForEachAsync calls on the SAME list (other goroutine, or from a callback): WaitGroup kept in the list itself - deadlock / WaitGroup misuse panic'),
+"C16-6a": ("C16", 'an object KEY with a control character / DEL / non-printable rune: FormatString quotes keys with strconv.Quote (Go escapes, invalid JSON)'),
+"C16-6b": ("C16", "a whole float >= 1e6 anywhere: '.0' appended to the exponent form, String() invalid, FormatString returns the empty string"),
+"C17-6a": ("C17", 'a string list with upper- and lower-case letters: Sort compares case-folded strings (not bytewise, input-order dependent)'),
+"C17-6b": ("C17", 'Sort on a list whose FIRST element is a nested list: kind guard off by one on the Type enum, no panic, non-float elements dropped'),
+"C18-6a": ("C18", "IntProd on a list holding the int 0: bare return in a 'zero decides' shortcut hands back the product of the prefix"),
+"C18-6b": ("C18", 'Max on a list whose elements are ALL below -MaxFloat32: fold starts at -MaxFloat32 instead of -MaxFloat64'),
+"C19-6a": ("C19", 'storing an INNER embedding level or the embedded container of a registered derived value: parseVal re-registers what it stores, the outer registration is overwritten'),
+"C19-6b": ("C19", 'NewListOf(derived, n >= 2): positions 1.. receive deep copies (plain containers) instead of the stored outer value'),
+"C20-6a": ("C20", 'an invalid literal with a newline between it and its terminating delimiter: the line where the literal STARTS is cited'),
+"C20-6b": ("C20", 'input that starts with white space containing newlines: TrimSpace at the entry points before the start line is computed'),
 }
 rows = []
 base = '/verif/seeded'
@@ -113,7 +153,7 @@ for d in sorted(os.listdir(base)):
     m = json.load(open(p))
     prop, need = N.get(d, (d.split('-')[0], m.get('needs_to_manifest', '')))
     m['breaks_property'], m['needs_to_manifest'] = prop, need
-    m['round'] = 5 if d.endswith('-5') else 4 if d.endswith('-4') else 3 if d.endswith('-3') else 2 if d.endswith('-2') else 1
+    m['round'] = 6 if d[-3:] in ('-6a','-6b') else 5 if d.endswith('-5') else 4 if d.endswith('-4') else 3 if d.endswith('-3') else 2 if d.endswith('-2') else 1
     if d == "C06-merge-empty-receiver":
         m['classification'] = 'first read as outside the statement, reading tightened in round 5; detected since'
     json.dump(m, open(p, 'w'), indent=1)
@@ -129,7 +169,10 @@ white space, concurrent Equals with an equal-length unequal operand); round 4 - 
 collapse as float64, an entry point that rewrites its input); round 5 - 12 of 20 detected at once, 8 missed
 (long decimal mantissas, identity of the argument's containers in Merge, disagreement of the two tree-form readers on odd index
 spellings, keys containing a separator, non-finite floats, float32 leaves that are not short decimals, callbacks that wait
-for each other, indents far outside the range). What was strengthened for each miss is described in
+for each other, indents far outside the range); round 6 (two per property) - 32 of 40 detected at once, 8 missed
+(non-string keys with a String method, closures over loop variables in Clone, typed nils, nil vs empty native slices,
+overlapping async calls on one container, all-huge-negative lists for Max, storing inner embedding levels, NewListOf
+with a derived value). What was strengthened for each miss is described in
 DESIGN.md section 9. `tools/seed_all.sh` re-verifies every entry against the check of its property.
 """
 open(f'{base}/README.md', 'w').write(head + "| id | property | needs to manifest | compiles, tests pass, demo fails with / passes without | detected by (quick tier) |\n|---|---|---|---|---|\n" + "\n".join(rows) + "\n" + tail)
